@@ -119,8 +119,8 @@ class Impl(object):
         kw = {}
         if not rc:
             kw["Reconcile"] = False
-        if m is not None:
-            kw["MRTS"] = float(m)
+        if m is not None and m != 0:
+            kw["MRTS"] = float(m)       # MRTS = 0 is the default: leave the keyword out (explicit 0 is C15's business)
         if ri is not None:
             kw["RI"] = bool(ri)
         return kw
